@@ -301,6 +301,9 @@ outerloop:
 		} else if opElementLength == -2 { // 2 bytes long length indicator
 			opElementLength = int(binary.BigEndian.Uint16(opElements[index+1 : index+1+2]))
 			index += 1 + 2 + opElementLength
+		} else {
+			// unknown information element: its length is not known, stop instead of looping on it forever
+			break outerloop
 		}
 	}
 
